@@ -26,6 +26,23 @@ type INode struct {
 	Kids []*INode
 }
 
+// Size is the number of file bytes the image refers to (files share their content with other images
+// taken while it did not change, so this is an upper bound of what the image keeps alive).
+func (img *Image) Size() int64 {
+	var walk func(n *INode) int64
+	walk = func(n *INode) int64 {
+		t := int64(len(n.Data))
+		for _, k := range n.Kids {
+			t += walk(k)
+		}
+		return t
+	}
+	if img == nil || img.Root == nil {
+		return 0
+	}
+	return walk(img.Root)
+}
+
 // CaptureLocked captures the durable view; it must be called from OnOp (lock held).
 func (y *FS) CaptureLocked() *Image {
 	return &Image{Root: captureNode(y.root), Op: y.ops}
